@@ -234,14 +234,20 @@ def run(c):
     # ---- generated invoices and payments ----
     g = cg.Gen(c.rng)
     g.calc_only = True      # combos that calculate but would not validate (rate key under a country without regime)
+    g.sub_currency = True   # sub-lines (breakdown, substituted) whose items are priced in another currency (exchange rate / alt price), any precision
     n = 3000 if quick else 150000
     docs = [d for d in (g.doc() for _ in range(n)) if cg.in_domain(d)[0]]
     base = cg.run3(docs)
     c01.judge(c, base, "calc", prop="C04")
     rec = cg.run3(docs, prefix="c17", op_="recalc")
-    fx = run_go(["c04 fix " + w(json.dumps(d)) for d in docs])
+    # (the generator's private annotations - keys starting with '_' - are not part of the document: gobl.Parse refuses them)
+    fx = run_go(["c04 fix " + w(json.dumps(cg.strip_notes(d))) for d in docs])
     for d, r0, r1, f in zip(docs, base, rec, fx):
         c.count("generated-fixpoint", 1, json.dumps(d, sort_keys=True))
+        if any("currency" in sl["item"] for l in d["lines"] for sl in l.get("breakdown", []) + l.get("substituted", [])):
+            c.count("generated-fixpoint-subline-currency", 1, json.dumps(d, sort_keys=True))
+        if not is_err(parse_wire(f)):
+            c.count("generated-fixpoint-bytes", 1, json.dumps(d, sort_keys=True))     # calculated: the three byte-compared rounds really ran
         if r1["go"] != r1["model"]:
             if shown < 3:
                 shown += 1
@@ -284,7 +290,7 @@ def run(c):
     junk = []
     alphabet = ["A", "b", "1", "7", " ", " ", "-", ".", "/", "#", "_", ":", "$", "  ", " - ", "\t"]
     for d in docs[: (600 if quick else 20000)]:
-        d2 = json.loads(json.dumps(d))
+        d2 = json.loads(json.dumps(cg.strip_notes(d)))
         mk = lambda: "X" + "".join(c.rng.choice(alphabet) for _ in range(c.rng.randint(2, 8))) + "9"
         d2["series"] = mk()
         d2["code"] = mk()
@@ -298,6 +304,8 @@ def run(c):
     for d, f in zip(junk, fx):
         c.count("normaliser-fixpoint", 1, json.dumps(d, sort_keys=True))
         v = parse_wire(f)
+        if not is_err(v):
+            c.count("normaliser-fixpoint-bytes", 1, json.dumps(d, sort_keys=True))
         if v and isinstance(v[0], list) and v[0] and v[0][0] == b"diff":
             r0 = cg.run3([d])[0]
             if not is_err(r0["go"]) and cg.excess_fixed(d, r0["py"]):
@@ -335,7 +343,7 @@ def run(c):
                           "rerun": "for m in fwd rev; do bin/vharness c15equiv %s %d 40 $m | grep -F '%s'; done" % (REPO, c.seed, k_)})
     _ph(c, 10)
     # ---- process / GOMAXPROCS independence (sampling) ----
-    sample = [d for _, d in exs if True][: (60 if quick else 10 ** 6)] + [json.dumps(d).encode() for d in docs[: (200 if quick else 5000)]]
+    sample = [d for _, d in exs if True][: (60 if quick else 10 ** 6)] + [json.dumps(cg.strip_notes(d)).encode() for d in docs[: (200 if quick else 5000)]]
     lines = ["c04 build " + w(d) for d in sample]
     a = run_env(lines, 1)
     b = run_env(lines, 16)
@@ -355,7 +363,8 @@ def run(c):
                      "Code and Key validity, Address.Normalize, the scenario-note step of Invoice.Calculate under a synthetic add-on with generated scenario sets, json.Marshal / Unmarshal of "
                      "cbc.Meta filled in two orders, cal.Date text: each compared with the extracted model of rocq/Fix on exhaustive small inputs (all single bytes, all strings up to length 5 "
                      "over {A,-,space,#}, all triples over 13 characters) and random mixtures (punctuation, Unicode white space and letters, malformed UTF-8, long runs), and judged "
-                     "directly (second application equal, clean output, order independence, read-back); extension-only inputs (tools/props/c04ext.py): every extension key / value of "
+                     "directly (second application equal, clean output, order independence, read-back); the generated invoices include sub-lines (breakdown, substituted) whose "
+                     "items are priced in another currency (exchange rate or alternative price) with fewer / as many / more decimals than the document's; extension-only inputs (tools/props/c04ext.py): every extension key / value of "
                      "every regime, add-on and catalogue at every ext position of invoice, order, delivery and payment, with and without key/type/rate beside it, built 6 times in one "
                      "process (byte-identical documents and digests) and fed back once; distinct = distinct documents / files / wire cases" % len(exs))
     if not proved:
@@ -377,7 +386,7 @@ def replay(path):
     elif "repeat_document" in r:
         print(run_go(["c04 rep " + w(json.dumps(r["repeat_document"])) + " %d" % r.get("repeats", 12)], shards=1)[0])
     elif "document" in r:
-        print(run_go(["c04 fix " + w(json.dumps(r["document"]))], shards=1)[0])
+        print(run_go(["c04 fix " + w(json.dumps(cg.strip_notes(r["document"])))], shards=1)[0])
     elif "payment" in r:
         print(run_go(["c04 fix " + w(json.dumps(r["payment"]))], shards=1)[0])
     elif "example" in r:
